@@ -216,7 +216,7 @@ class C09(Prop):
         "uniformPositive_pos", "uniform_positive_unit", "gaussian_in_bounds", "gauss_table_sizes", "gamma_positive_real_partial", "dirichlet_simplex_real_partial",
         "mem_bytes", "floatstring_fits", "samplers_replay", "mt_constants_published", "model_constants_regenerated", "temper_linear",
         "seed0_create_replays", "seed0_init_replays", "rand64_init_replays", "dump_in_bounds", "dump_in_bounds_reinit", "dump_prefix_out_of_bounds",
-        "rand64_deal_spec_abstract", "rand64_deal_spec_binary64", "vitter_a_terminates", "rand64_deal_prefix_out_of_range", "rand64_deal_prefix_defect_carrier",
+        "rand64_deal_spec_abstract", "rand64_deal_spec_binary64", "vitter_a_terminates", "rand64_deal_small_terminates", "rand64_deal_prefix_out_of_range", "rand64_deal_prefix_defect_carrier",
         "mt_top_bit_clear_within", "roll_accepts_top_clear", "roll_terminates_mt19937", "roll_terminates_on_stream", "roll_terminates_fast", "roll64_terminates", "roll_is_first_accepted_word", "roll64_is_first_accepted_word", "uniformPositive_terminates", "uniformPositive_is_first_nonzero_word", "mem_floatstring_total", "gamma_integer_dirichlet_total")] + ["EaselModel.MTP.fill_correct", "EaselModel.MTP.stream_eq_spec"]
     claimed = True
     technique = "Lean 4 proof (generic in-place-refill = recurrence theorem, stream invariant by induction, roll/deal arithmetic, GF(2) linear-recurrence bound on runs of the top output bit for loop termination) + exact differential correspondence of the executable model with the ASan/UBSan-built C generators"
@@ -362,6 +362,10 @@ class C09(Prop):
                      "new32 seed=4294967297", "w32 k=2", "new32 seed=1", "w32 k=2", "new32 seed=4294967296", "w32 k=2", "new32 seed=0", "w32 k=2",
                      "init seed=18446744073709551615", "w32 k=1", "init seed=8589934592", "w32 k=1", "newfast seed=18446744073709551615", "w32 k=2", "newfast seed=4294967295", "w32 k=2",
                      "new64 seed=18446744073709551615", "w64 k=2", "new64 seed=4294967295", "w64 k=2", "init64 seed=18446744073709551615", "w64 k=2", "new64 seed=1", "w64 k=1", "new32 seed=1", "w32 k=1"]},
+            # the rejection loop continues over several consecutive rejected words (top bit set, x >= n*factor) and returns the first accepted one
+            {"name": "roll64-consecutive-rejects", "ops": ["new64 seed=1", "pokeraw64 w=%d" % untemper64(M64), "pokeraw64 w=%d off=1" % untemper64(M64 - 1),
+                     "pokeraw64 w=%d off=2" % untemper64((1 << 63) + 1), "pokeraw64 w=%d off=3" % untemper64(1 << 63), "pos64", "roll64 n=%d" % ((1 << 63) + 1), "pos64",
+                     "pokeraw64 w=%d" % untemper64(M64), "pokeraw64 w=%d off=1" % untemper64(M64), "roll64 n=3", "pos64", "u64 k=2"]},
             {"name": "mt64", "ops": ["new64 seed=42", "u64 k=1", "u64 k=311", "u64 k=1", "u64 k=1000", "roll64 n=18446744073709551615", "dbl64", "dblclosed", "dblopen"]},
         ]
 
